@@ -62,6 +62,7 @@ func checkC15(c *Ctx, r *Report) {
 	checkECIEmission(c, r)
 	checkGuessUTF8(c, r)
 	checkByteSegmentTranscode(c, r)
+	checkHintForwarding(c, r) // a CHARACTER_SET decode hint must reach every retry
 	checkQRSegments(c, r) // Kanji mode (chosen under a Shift_JIS hint): the double-byte arithmetic of writer and reader are inverse
 	r.Note("not decided: charset guessing over whole texts (only single well-formed multi-byte characters, S-GUESS); per-charset transcoding (golang.org/x/text)")
 }
